@@ -19,6 +19,7 @@ func init() {
 		Short(c, "R-SHORT", pkgs)
 		FoldStop(c, "R-FOLDSTOP", pkgs, 4)
 		RunOnce(c, "R-RUNONCE", c.Pkg("fp"), 10)
+		SupplyOnce(c, "R-SUPPLYONCE", []*packages.Package{c.Pkg("fp"), c.Pkg("option"), c.Pkg("try"), c.Pkg("either"), c.Pkg("statet"), c.Pkg("future")}, 40)
 		Supplier(c, "R-SUPPLIER", []*packages.Package{c.Pkg("option"), c.Pkg("try"), c.Pkg("either"), c.Pkg("statet"), c.Pkg("future")})
 		EffOrder(c, "R-EFFORDER", []*packages.Package{c.Pkg("option"), c.Pkg("try"), c.Pkg("either"), c.Pkg("future"), c.Pkg("statet")})
 		PanicCapture(c, "R-PANIC", libPkgs(c), map[string]bool{"try.Of": true, "try.Call": true, "try.CallUnit": true, "future.Apply": true, "future.Apply2": true})
@@ -507,8 +508,35 @@ func Supplier(c *core.Ctx, rule string, pkgs []*packages.Package) {
 								return false
 							case *ast.FuncLit:
 								return false // deferred
+							case *ast.BlockStmt:
+								// what follows a guard clause (`if test { …; return }`) runs under the negated test
+								g := guarded
+								for _, st := range s.List {
+									walk(st, g)
+									if is, ok := st.(*ast.IfStmt); ok && len(is.Body.List) > 0 {
+										if _, isRet := is.Body.List[len(is.Body.List)-1].(*ast.ReturnStmt); isRet {
+											g = true
+										}
+									}
+								}
+								return false
+							case *ast.SwitchStmt:
+								{
+									walk(s.Init, guarded)
+									walk(s.Tag, guarded)
+									for _, cc := range s.Body.List {
+										cl := cc.(*ast.CaseClause)
+										for _, e := range cl.List {
+											walk(e, guarded)
+										}
+										for _, st := range cl.Body {
+											walk(st, true)
+										}
+									}
+									return false
+								}
 							case *ast.IfStmt:
-								if s != nd {
+								{
 									walk(s.Cond, guarded)
 									walk(s.Body, true)
 									if s.Else != nil {
